@@ -382,6 +382,10 @@ def run(tier, seed):
     # the pipeline's first mechanism -- one decided value per duty -- checked on the real qbft.Run against QBFT.tla
     import qbft_common
     qbft_common.consensus_stage(o, seed, thorough)
+    # ... and on the real consensus COMPONENTS (what a node's DutyDB is actually handed): safety only
+    if not o.violations:
+        import conscluster
+        conscluster.stage_safety(o, tier, seed)
     # binding negative controls on recorded traces
     tr = vlib.split_traces(vlib.read_ndjson(vlib.workdir(PID) + "/trace_tlcgen.ndjson"))
     tr = [t for t in tr if t[0]["nv"] == 1]
